@@ -22,7 +22,8 @@ RULE = ("every Term subclass/variant of the zoo and every leaf class (from the l
         "RETURNING, DISTINCT ON, FROM, JOIN) and x every operand slot of every zoo entry (in select-list and WHERE context) x "
         "GROUP BY / ORDER BY by alias or by expression (alias defined by the select list / not at all / only by a discarded sibling "
         "branch, another statement, or a select list since replaced by *) x six dialect classes; enumerated completely, seeded random compositions on "
-        "top. non-trivial = all (an alias is always involved); distinct = (class, position, slot, dialect)")
+        "top. non-trivial = all (an alias is always involved); distinct = (class, position, slot, dialect)"
+        " also: sibling / elsewhere / after-star positions, DISTINCT ON next to a select list defining the same alias, aliases in another letter case, table factory argument forms, temporal and set-operation sources. (DESIGN.md 6a)")
 ASSUMPTIONS = ["token-level comparison through the reference lexers",
                "SQLite prepare for the subset of classes whose SQL SQLite understands (fields, arithmetic, comparisons, CASE, functions it knows)"]
 ANCHORS = ["format_alias_sql", "Field.get_sql", "ValueWrapper.get_sql", "ArithmeticExpression.get_sql", "Case.get_sql", "Function.get_sql",
